@@ -4,6 +4,7 @@ import Ptn.C15.Sem
 import Ptn.C15.Kron
 import Ptn.C15.Denote
 import Ptn.C15.Flow
+import Ptn.C15.Herm
 /-! Property theorems for C15. Only property theorems and non-vacuity examples live here.
 
   `generateLindbladian` is the literal port of `generate_lindbladian` (tied to `/repo` by the
@@ -316,6 +317,26 @@ theorem gksl_flow_trace_preserving (H : Matrix K K ℂ) (js : List (ℂ × Matri
   have h1 := vecMul_exp_of_vecMul_eq_zero _ _ h0
   refine ⟨h1, fun ρ => ?_⟩
   rw [Matrix.dotProduct_mulVec, h1]
+
+/-- **The GKSL flow preserves Hermiticity.**  For every Hermitian Hamiltonian, every list of jump operators
+    with real rates and every real time `t`, `exp(−i t 𝓛)` maps the vectorisation of a Hermitian matrix to
+    the vectorisation of a Hermitian matrix: the evolved `ρ(t)`, read back as a matrix, equals its own
+    conjugate transpose.  (`gksl_flow_dag`: the flow commutes with the adjoint because `𝓛` changes sign under
+    the ring automorphism `M ↦ conj M[(b,a),(d,c)]`.) -/
+theorem gksl_flow_hermiticity_preserving (H : Matrix K K ℂ) (hH : Hᴴ = H)
+    (js : List (ℂ × Matrix K K ℂ)) (hjs : ∀ j ∈ js, star j.1 = j.1) (t : ℝ)
+    (ρ : Matrix K K ℂ) (hρ : ρᴴ = ρ) :
+    (Matrix.of fun a b => (NormedSpace.exp ((-Complex.I * (t : ℂ)) • gkslMat H js) *ᵥ vec ρ) (a, b))ᴴ =
+      Matrix.of fun a b => (NormedSpace.exp ((-Complex.I * (t : ℂ)) • gkslMat H js) *ᵥ vec ρ) (a, b) := by
+  have h := gksl_flow_dag H hH js hjs t ρ
+  rw [hρ] at h
+  ext a b
+  have := congrFun h (a, b)
+  simpa [dag, Matrix.conjTranspose_apply] using this
+
+example : ((0 : Matrix (Fin 2) (Fin 2) ℂ)ᴴ = 0) ∧
+    (∀ j ∈ [((1 : ℂ), (!![0, 1; 0, 0] : Matrix (Fin 2) (Fin 2) ℂ))], star j.1 = j.1) ∧
+    ((1 : Matrix (Fin 2) (Fin 2) ℂ)ᴴ = 1) := by simp
 
 /-- Concrete witness: one qubit, `H = 0`, one jump operator `σ₋ = [[0,1],[0,0]]` with rate 1 — the
     generated generator does not annihilate the trace functional (entry `(1,1)` is `i`), whereas
